@@ -13,6 +13,7 @@ import time
 import argparse
 import importlib
 import traceback
+import subprocess
 
 HERE = os.path.dirname(os.path.abspath(__file__))
 sys.path.insert(0, HERE)
@@ -262,11 +263,70 @@ def main():
     if a.replay:
         sys.exit(mod.replay(json.load(open(a.replay))))
     r = Run(a.pid, tier, seed)
+    # Overall time limit: a change that makes the code under test loop forever must end the check with a VIOLATION,
+    # not hang it.  A timer THREAD (independent of the SIGALRM-based watchdogs some harnesses use) reports the
+    # break, writes the evidence and the VIOLATION line, kills the check's own process group (worker processes,
+    # coqc) and exits 1.
+    import signal
+    import threading
+    limit = int(os.environ.get('VERIF_TIME_LIMIT', '0') or 0) or (2400 if tier == "quick" else 7200)
+    try:
+        os.setpgrp()
+    except OSError:
+        pass
+    done = threading.Event()
+
+    def _kill_children():
+        # worker processes, make/coqc: everything in our process group except ourselves
+        me = os.getpid()
+        try:
+            out = subprocess.run(['ps', '-o', 'pid=', '-g', str(os.getpgrp())], stdout=subprocess.PIPE,
+                                 text=True).stdout.split()
+            for p_ in out:
+                if p_.isdigit() and int(p_) != me:
+                    try:
+                        os.kill(int(p_), signal.SIGKILL)
+                    except OSError:
+                        pass
+        except Exception:
+            pass
+
+    def _expired():
+        if done.is_set():
+            return
+        done.set()
+        r.broken('harness', 'time limit exceeded',
+                 f"the check did not finish within {limit} s (possible non-termination of the code under test)")
+        r.falsified = True            # the falsifier would run the same code again
+        try:
+            r.finish(mod)
+        finally:
+            sys.stdout.flush()
+            _kill_children()
+            os._exit(1)
+    timer = threading.Timer(limit, _expired)
+    timer.daemon = True
+    timer.start()
     try:
         mod.check(r)
     except Exception:
         r.broken('harness', 'exception in check', traceback.format_exc())
-    sys.exit(r.finish(mod))
+    if done.is_set():                 # the timer thread is reporting
+        threading.Event().wait()
+    done.set()
+    timer.cancel()
+    # the falsifier gets its own, shorter limit
+    t2 = threading.Timer(max(900, limit // 2), lambda: (print(
+        f"VIOLATION property={a.pid} replay={os.path.join(VERIF, 'replays', a.pid + '-timeout.json')} "
+        f"no-failing-input-found", flush=True), os._exit(1)))
+    t2.daemon = True
+    t2.start()
+    rc = r.finish(mod)
+    t2.cancel()
+    sys.stdout.flush()
+    if rc:
+        _kill_children()                      # leave no stray worker behind
+    sys.exit(rc)
 
 
 if __name__ == '__main__':
